@@ -302,6 +302,13 @@ func IntakeRecommitCases(r *out.Run, g *out.Group, kp *KeyPool, thorough bool) {
 		for ci, ck := range keys {
 			for _, nc := range codes {
 				s := Spec{Label: "C", Type: operation.TypeCreate, NextUpd: uk.Commitment(SHA256), NextRec: ck.Commitment(nc), DeltaID: 1}
+				// the optional suffix-data members (type, anchor origin) have no bearing on the rule
+				if ui%2 == 1 {
+					s.SfxType = "t1"
+				}
+				if ci%3 == 1 {
+					s.Origin = "origin1"
+				}
 				op := Build(s)
 				ok, pan := parse(op.Request)
 				r.Count("intake_create", fmt.Sprint(ok))
